@@ -102,6 +102,12 @@ impl std::ops::Deref for Slice {
     #[verifier::external_body]
     fn deref(&self) -> (r: &[u8]) ensures r@ == self@ { unimplemented!() }
 }
+// byteview: `Slice == Slice` compares the bytes
+impl vstd::std_specs::cmp::PartialEqSpecImpl for Slice {
+    open spec fn obeys_eq_spec() -> bool { true }
+    open spec fn eq_spec(&self, other: &Slice) -> bool { self@ == other@ }
+}
+impl PartialEq for Slice { #[verifier::external_body] fn eq(&self, other: &Slice) -> (r: bool) { unimplemented!() } }
 pub type UserKey = Slice;
 pub type UserValue = Slice;
 
